@@ -22,7 +22,7 @@ def check(ctx):
     g = ctx.gen
     ctx.lean_gate()
     torch.manual_seed(ctx.seed % (2 ** 31))
-    n = 220 if ctx.tier == "quick" else 3000
+    n = 1000 if ctx.tier == "quick" else 5000
     reqs, metas = [], []
     for it in range(n):
         name = g.choice(GENERATORS)
